@@ -31,6 +31,8 @@ SCEN = {
         "collect x user-steps": sc([[G], [U, U]], 36, []),
         "collect x primitive,user": sc([[G], [P, U]], 36, ["exit-window"], EW),
         "collect x primitive x primitive [exit window excluded]": sc([[G], [P], [P]], 40, ["exit-window"], EW),
+        # K = 60 covers one COMPLETE stop-scan-resume cycle (about 55 steps) and what the other thread does after it
+        "assign-global x primitive-call, whole cycle [exit window excluded]": sc([[S], [P]], 60, ["exit-window"], EW),
     },
 }
 
